@@ -68,12 +68,19 @@ func routerStrList(xs []string) string {
 	return "[" + strings.Join(ps, "; ") + "]"
 }
 
-// routerCalls lists, in source order, the printed callee of every call expression under n.
+// routerCalls lists, in source order, the printed callee of every call expression under n;
+// a call started with `go` or `defer` is prefixed accordingly (it does not run in sequence).
 func routerCalls(n ast.Node) []string {
 	var out []string
+	special := map[*ast.CallExpr]string{}
 	ast.Inspect(n, func(x ast.Node) bool {
-		if c, ok := x.(*ast.CallExpr); ok {
-			out = append(out, pr(c.Fun))
+		switch st := x.(type) {
+		case *ast.GoStmt:
+			special[st.Call] = "go "
+		case *ast.DeferStmt:
+			special[st.Call] = "defer "
+		case *ast.CallExpr:
+			out = append(out, special[st]+pr(st.Fun))
 		}
 		return true
 	})
